@@ -414,6 +414,28 @@ func (en *Engine) scanDelayElision() (bool, string) {
 	}
 	// Bind(m, "return", Or(m, <whitelist>, <literal-Bind>)) and the callback replaces by ctx.Binds["return"]
 	okOr, okReplace := false, false
+	isReturnBind := func(e ast.Expr) bool {
+		if ta, ok := e.(*ast.TypeAssertExpr); ok {
+			e = ta.X
+		}
+		ix, ok := e.(*ast.IndexExpr)
+		if !ok {
+			return false
+		}
+		name, ok := constStr(ix.Index)
+		return ok && name == "return" && strings.HasSuffix(exprText(en, ix.X), ".Binds")
+	}
+	returnVars := map[*types.Var]bool{}
+	ast.Inspect(u.Body, func(n ast.Node) bool {
+		if as, ok := n.(*ast.AssignStmt); ok && as.Tok == token.DEFINE && len(as.Lhs) == 1 && len(as.Rhs) == 1 && isReturnBind(as.Rhs[0]) {
+			if id, ok := as.Lhs[0].(*ast.Ident); ok {
+				if v, ok := info.Defs[id].(*types.Var); ok {
+					returnVars[v] = true
+				}
+			}
+		}
+		return true
+	})
 	ast.Inspect(u.Body, func(n ast.Node) bool {
 		c, ok := n.(*ast.CallExpr)
 		if !ok {
@@ -435,8 +457,12 @@ func (en *Engine) scanDelayElision() (bool, string) {
 			}
 		}
 		if calleeName(c) == "Replace" && len(c.Args) == 1 {
-			if ix, ok := c.Args[0].(*ast.IndexExpr); ok {
-				if name, ok := constStr(ix.Index); ok && name == "return" && strings.HasSuffix(exprText(en, ix.X), ".Binds") {
+			if isReturnBind(c.Args[0]) {
+				okReplace = true
+			}
+			// or a local bound once to (a type assertion of) the binding: `call := ctx.Binds["return"].(*ast.CallExpr)`
+			if id, ok := c.Args[0].(*ast.Ident); ok {
+				if v, ok := info.Uses[id].(*types.Var); ok && returnVars[v] {
 					okReplace = true
 				}
 			}
